@@ -106,3 +106,20 @@ s = open(p).read()
 s = re.sub(r"<!-- SEEDED-TABLE-BEGIN -->.*?<!-- SEEDED-TABLE-END -->", "<!-- SEEDED-TABLE-BEGIN -->\n" + "\n".join(rows) + "\n<!-- SEEDED-TABLE-END -->", s, flags=re.S)
 open(p, "w").write(s)
 print(len(rows) - 2, "seeded changes in the table")
+
+
+# ---- rules per property, from the obligation lists written by the last run of every check ----
+import collections
+obd = os.path.join(VERIF, "evidence", "obligations")
+lines = ["| id | rules (obligations on the unchanged tree) |", "|----|--------------------------------------------|"]
+for fn in sorted(os.listdir(obd)) if os.path.isdir(obd) else []:
+    obs = json.load(open(os.path.join(obd, fn)))
+    c = collections.OrderedDict()
+    for o in obs:
+        c[o["rule"]] = c.get(o["rule"], 0) + 1
+    lines.append("| %s | %s |" % (fn[:-5], ", ".join("%s (%d)" % kv for kv in c.items())))
+s2 = open(p).read()
+if "<!-- RULES-TABLE-BEGIN -->" in s2:
+    s2 = re.sub(r"<!-- RULES-TABLE-BEGIN -->.*?<!-- RULES-TABLE-END -->", "<!-- RULES-TABLE-BEGIN -->\n" + "\n".join(lines) + "\n<!-- RULES-TABLE-END -->", s2, flags=re.S)
+    open(p, "w").write(s2)
+    print(len(lines) - 2, "properties in the rules table")
